@@ -229,6 +229,30 @@ def native_part(art, tier, stats, fnd):
             if "panicked" in out or r.returncode not in (0, 1): fnd.report("native-panic:path-argument", "sylt -o out.lua %r: exit %d %s" % (arg, r.returncode, out.replace("\n", " ")[:200]), {"main.sy": "start :: fn do end\n"}, cmd="sylt -o out.lua %r" % arg)
             elif r.returncode == 1 and "not found" not in out and "error" not in out.lower(): fnd.report("native-silent_failure:path-argument", "sylt -o out.lua %r: exit 1 without a rendered error" % arg, {"main.sy": "start :: fn do end\n"})
     finally: shutil.rmtree(d, ignore_errors=True)
+    # long but FLAT inputs: lists of N siblings nest nothing, so the size of the list must not be what the native stack measures
+    N = 3000
+    wide = {
+        "enum_variants": "E :: enum\n" + "".join("    V%d,\n" % i for i in range(N)) + "end\nstart :: fn do\nend\n",
+        "blob_fields": "B :: blob {\n" + "".join("    f%d: int,\n" % i for i in range(N)) + "}\nstart :: fn do\nend\n",
+        "list_literal": "start :: fn do\n    l :: [" + ", ".join("1" for i in range(N)) + "]\nend\n",
+        "tuple_literal": "start :: fn do\n    l :: (" + ", ".join("1" for i in range(N)) + ")\nend\n",
+        "call_arguments": "f :: fn do end\nstart :: fn do\n    f(" + ", ".join("1" for i in range(N)) + ")\nend\n",
+        "parameters": "f :: fn " + ", ".join("p%d: int" % i for i in range(N)) + " do end\nstart :: fn do\nend\n",
+        "statements": "start :: fn do\n" + "".join("    x%d :: %d\n" % (i, i) for i in range(N)) + "end\n",
+        "globals": "".join("g%d :: %d\n" % (i, i) for i in range(N)) + "start :: fn do\nend\n",
+        "elif_chain": "start :: fn do\n    x :: 1\n    if x == 0 do\n" + "".join("    elif x == %d do\n" % i for i in range(N)) + "    end\nend\n",
+        "case_arms": "E :: enum\n    A,\nend\nstart :: fn do\n    e :: E.A\n    case e do\n" + "".join("        A -> end\n" for i in range(N)) + "    end\nend\n",
+        "blob_instance_fields": "B :: blob {\n    a: int,\n}\nstart :: fn do\n    b :: B { " + ", ".join("a: 1" for i in range(N)) + " }\nend\n",
+        "type_arguments": "B :: blob(*T) {\n    a: *T,\n}\nf :: fn b: B(" + ", ".join("int" for i in range(N)) + ") do end\nstart :: fn do\nend\n",
+        "type_parameters": "B :: blob(" + ", ".join("*T%d" % i for i in range(N)) + ") {\n    a: int,\n}\nstart :: fn do\nend\n",
+        "tuple_type": "f :: fn b: (" + ", ".join("int" for i in range(N)) + ") do end\nstart :: fn do\nend\n",
+        "imported_names": "from a use (" + ", ".join("x" for i in range(N)) + ")\nstart :: fn do\nend\n",
+        "blank_lines_and_comments": "// c\n\n" * N + "start :: fn do\nend\n",
+    }
+    for name, text in wide.items():
+        st, dt, out = native_run(art["sylt"], {"main.sy": text, "a.sy": "x :: 1\n"}, timeout=60); n += 1
+        if st != "ok": fnd.report("native-%s:wide-flat-input:%s" % (st, name), "%d %s, nothing nested: %s %s" % (N, name.replace("_", " "), st, out.replace("\n", " ")[-200:]), {"gen.py": "N = %d\nprint(%r)\n" % (N, "see the description: " + name)},
+                                  cmd="python3 -c 'print(\"E :: enum\\n\" + \"\".join(\"    V%d,\\n\" % i for i in range(3000)) + \"end\\nstart :: fn do\\nend\")' > main.sy; sylt -o out.lua main.sy" if name == "enum_variants" else "sylt -o out.lua main.sy")
     # nesting probes (time growth)
     for kind, gen in [("nested_call_closures", lambda d: "a :: fn f do end\nstart :: fn do\n" + "a(fn do\n" * d + "end)\n" * d + "end\n"), ("nested_ifs", lambda d: "start :: fn do\n    x := 1\n" + "if x > 0 do\n" * d + "x = 2\n" + "end\n" * d + "end\n")]:
         first_slow = None
